@@ -62,9 +62,14 @@ AlphaIgn == {" ", ",", "TAB", "LF", "CR", "BOM", "#", "U2", "U4", "BEL", "DEL", 
 AlphaIgnSmall == {" ", ",", "LF", "CR", "BOM", "#", "U2", "BEL", "x", "DQ"}
 AlphaStr == {"DQ", "BS", "n", "u", "x", "/", "0", "a", "U2", "U4", "BEL", "DEL", "LF", "CR", "TAB", " ", "BOM", "#"}
 AlphaStrSmall == {"DQ", "BS", "n", "u", "x", "0", "U2", "BEL", "DEL", "LF", " "}
-AlphaIgnTiny == {" ", "LF", "CR", "BOM", "#", "U2", "x", "DQ"}
-AlphaDocTiny == {"BOM", " ", "LF", "#", "U2", "x", "{"}
-AlphaStrTiny == {"DQ", "BS", "n", "u", "x", "0", "U2", "BEL", "LF"}
+AlphaIgnTiny == {" ", "LF", "CR", "BOM", "#", "U2", "x"}
+AlphaDocTiny == {"BOM", " ", "LF", "#", "U2", "x"}
+AlphaStrTiny == {"DQ", "BS", "n", "u", "x", "U2", "LF"}
+AlphaStrSmall9 == {"DQ", "BS", "n", "u", "x", "0", "U2", "BEL", "LF"}
+AlphaHexTiny == {"0", "a", "F", "x", "DQ", "U2"}
+AlphaBlkTiny == {" ", "LF", "a", "DQ", "BS", "U2"}
+AlphaNumTiny == {"-", "0", "1", ".", "e", "+", "a", ")"}
+AlphaNum10 == {"-", "0", "1", ".", "e", "E", "+", "a", " ", ")"}
 AlphaHexSmall == {"0", "a", "F", "x", "Z", "DQ", "U2", " "}
 AlphaNumSmall == {"-", "0", "1", ".", "e", "+", "a", " ", ")"}
 AlphaHex == {"0", "1", "a", "f", "A", "F", "x", "Z", "DQ", "U2", " "}
@@ -77,22 +82,23 @@ AlphaDoc == {"BOM", " ", "LF", "#", "U2", "x", "{", "DQ"}
 TokFam(name, alpha, max, prefix) == Fam(name, "tok", alpha, max, prefix, <<>>, <<>>)
 ChrFam(name, pre, post, alpha, max) == Fam(name, "chr", alpha, max, <<>>, pre, post)
 
-\* quick: ~50k token strings, ~35k character strings; thorough: ~4.7M token strings, ~1.4M character strings
+\* quick: ~49k token strings, ~17k character strings; thorough: ~4.7M token strings, ~0.8M character strings
+\* (TLC needs ~0.3 ms CPU per token string and 2-5 ms per character string)
 FamsTokQuick == << TokFam("exec", ExecSmall, 5, <<>>), TokFam("typesys", TypeSysSmall, 4, <<>>),
                    TokFam("vardef", VarDefAlpha, 9, PfxVarDef), TokFam("fielddef", VarDefAlpha, 9, PfxFieldDef) >>
 FamsTokThorough == << TokFam("exec", ExecFull, 6, <<>>), TokFam("exec7", ExecSmall, 7, <<>>), TokFam("typesys", TypeSys, 5, <<>>),
                       TokFam("vardef", VarDefAlpha, 12, PfxVarDef), TokFam("fielddef", VarDefAlpha, 11, PfxFieldDef) >>
 FamsChrQuick == << ChrFam("ign", PreIgn, PostIgn, AlphaIgnTiny, 4), ChrFam("doc", PreDoc, PostDoc, AlphaDocTiny, 4),
-                   ChrFam("str", PreStr, PostStr, AlphaStrTiny, 4), ChrFam("stru", PreStrU, PostStr, AlphaHexSmall, 4),
-                   ChrFam("blk", PreBlk, PostBlk, AlphaBlkSmall, 4), ChrFam("blk2", PreBlk2, PostBlk, AlphaBlkSmall, 4),
-                   ChrFam("blk3", PreBlk3, PostBlk, AlphaBlkSmall, 4), ChrFam("num", PreNum, PostNum, AlphaNumSmall, 4) >>
+                   ChrFam("str", PreStr, PostStr, AlphaStrTiny, 4), ChrFam("stru", PreStrU, PostStr, AlphaHexTiny, 4),
+                   ChrFam("blk", PreBlk, PostBlk, AlphaBlkTiny, 4), ChrFam("blk2", PreBlk2, PostBlk, AlphaBlkTiny, 4),
+                   ChrFam("blk3", PreBlk3, PostBlk, AlphaBlkTiny, 4), ChrFam("num", PreNum, PostNum, AlphaNumTiny, 4) >>
 FamsChrThorough == << ChrFam("ign", PreIgn, PostIgn, AlphaIgn, 4), ChrFam("ign5", PreIgn, PostIgn, AlphaIgnSmall, 5),
                       ChrFam("doc", PreDoc, PostDoc, AlphaDoc, 5),
-                      ChrFam("str", PreStr, PostStr, AlphaStr, 4), ChrFam("str5", PreStr, PostStr, AlphaStrSmall, 5),
-                      ChrFam("stru", PreStrU, PostStr, AlphaHex, 5),
+                      ChrFam("str", PreStr, PostStr, AlphaStr, 4), ChrFam("str5", PreStr, PostStr, AlphaStrSmall9, 5),
+                      ChrFam("stru", PreStrU, PostStr, AlphaHexSmall, 5),
                       ChrFam("blk", PreBlk, PostBlk, AlphaBlk, 5), ChrFam("blk6", PreBlk, PostBlk, AlphaBlkSmall, 6),
-                      ChrFam("blk2", PreBlk2, PostBlk, AlphaBlkSmall, 6), ChrFam("blk3", PreBlk3, PostBlk, AlphaBlkSmall, 6),
-                      ChrFam("num", PreNum, PostNum, AlphaNum, 5) >>
+                      ChrFam("blk2", PreBlk2, PostBlk, AlphaBlkSmall, 5), ChrFam("blk3", PreBlk3, PostBlk, AlphaBlkSmall, 5),
+                      ChrFam("num", PreNum, PostNum, AlphaNum10, 5) >>
 FamsSim == << Fam("sim", "sim", AllKinds, 24, <<>>, <<>>, <<>>) >>
 \* single families, for experiments and replays
 FamsIgn == << ChrFam("ign", PreIgn, PostIgn, AlphaIgnSmall, 4) >>
@@ -206,9 +212,12 @@ Next ==
   /\ Len(seq) < Fams[fi].max
   /\ IF Mode = "chr" THEN TRUE ELSE Extendable(vec)
   /\ \E x \in Fams[fi].alpha :
-       /\ seq' = Append(seq, x)
-       /\ vec' = MkVec(seq')
-       /\ IF Mode = "sim" THEN (Len(seq') > Fams[fi].max - 2 \/ vec'.exp.ok \/ vec'.exp.errTok > Len(seq')) ELSE TRUE
+       \* (state-level LETs, so that TLC evaluates the vector once)
+       LET s2 == Append(seq, x)
+           v2 == MkVec(s2)
+       IN /\ IF Mode = "sim" THEN (Len(s2) > Fams[fi].max - 2 \/ v2.exp.ok \/ v2.exp.errTok > Len(s2)) ELSE TRUE
+          /\ seq' = s2
+          /\ vec' = v2
   /\ UNCHANGED fi
 
 Spec == Init /\ [][Next]_vars
